@@ -33,10 +33,12 @@ def simulate(case, counts, f32, f33):
     _, code, curt, size, authic, ki, memos, sched = case
     signed = code in A.SIGNED
     held = {}
+    first_src = {}
     done = set()
     out = []
     for b in sched:
-        for mi, gi in b:
+        for item in b:
+            mi, gi = item[0], item[1]
             if mi >= len(memos) or not counts[mi]:
                 continue
             g = gi % counts[mi]
@@ -47,11 +49,13 @@ def simulate(case, counts, f32, f33):
                 if not h:
                     del held[mi]
                 continue
+            if not h:
+                first_src[mi] = item[2] if len(item) > 2 else memos[mi][2]     # the source of a memo is that of its first gram
             h.add(g)
         dl = []
         for mi in list(held):
             if len(held[mi]) == counts[mi]:
-                dl.append(mi)
+                dl.append((mi, first_src[mi]))
                 done.add(mi)
                 del held[mi]
         out.append(dl)
@@ -68,8 +72,22 @@ class C20(core.Check):
                  "(permutations, duplicates, interleavings, batches) -> real receive servicing, against the compiled model")
     quick_n = 500
     thorough_n = 10000
-    level_text = "see notes/Memo.md"
-    level_note = ""
+    level_text = ("Proved for ALL inputs (unbounded). Sender: rend_fuse — whenever rend succeeds on a non-empty memo (any code, either encoding, any size, "
+                  "any sign function) the gram bodies concatenate to the memo in gram-number order, none is empty, their number is the number of grams "
+                  "and is what the count field encodes, each gram is header ++ body (++ signature). Header codec: header_roundtrip_b64 (+ _zeroth/_later "
+                  "_unsigned/_signed) — for EVERY code of the regenerated table a datagram laid out code|intToB64b(n)|mid|vid|body|sig is parsed by pick "
+                  "into exactly those fields (uses the Base64 integer round trip re-proved in the package). Receiver, over sequences of grams pick accepted, "
+                  "for one memo among ARBITRARY other traffic with other ids: reassembly_one_batch (any order / duplicates / interleaving: delivered iff "
+                  "every gram number occurs, by its single entry, with text = bodies concatenated, source, vid), never_incomplete and delivered_content "
+                  "(any history of batches), delivered_when_complete + keys_accumulate, exactly_once_unless_replayed (_partial: exactly once under the guard "
+                  "of K3/F33 that no complete set arrives again; redelivered_on_full_replay is the witness), fuse_pass_per_entry, service_is_store_then_fuse "
+                  "(serviceAllRx = store accepted grams then fuse). NOT proved, carried by the correspondence only: the Base2 (curt) header parse of a "
+                  "genuine gram, and the composition rend -> pick for signed grams beyond header_roundtrip_*_signed (K2/F32 is visible there as the "
+                  "rejection clause). Known findings K1 (curt sizes < 33), K2 (F32), K3 (F33) are reproduced on the real code and matched narrowly.")
+    level_note = ("Trusted: Lean kernel + propext/Classical.choice/Quot.sound; translator harness/extract/memo.py; the sampled end-to-end correspondence "
+                  "(real rend with real pysodium -> scheduled delivery -> real serviceAllRx vs the compiled model); the four receive dicts modelled as one "
+                  "list of entries (their key sets coincide from the empty state); CPython utf-8 and float ceil as stated in assumptions. "
+                  "Pre-finding F31 reproduced and repaired for the count formula (fix/memo eb96733); its small-size half is K1 (pinned by the tree's test).")
     rule = ("cases: zeroth code in {plain, auth, sure, sure+auth} x {Base64, Base2 headers}; gram size from the setter minimum up (mostly minimum+0..40 so "
             "that memos need 2..40 grams, sometimes 1200/65535); 1..4 memos of 1..2048 utf-8 bytes of mixed-width unicode, distinct mids, own sources; "
             "schedule = all grams permuted (in order / reversed / shuffled / zeroth-first shuffled / interleaved), with duplicates inserted, sometimes a "
@@ -109,6 +127,7 @@ class C20(core.Check):
             ("e2e", "bAAA", False, 38, False, None, two, [[(0, 2), (1, 3)], [(1, 0), (0, 0)], [(1, 2), (0, 1), (1, 1)]]),
             ("e2e", "bAAA", False, 38, False, None, two, [[(0, 0), (0, 1), (1, 0), (1, 1), (1, 2), (1, 3)]]),         # memo 0 misses gram 2
             ("e2e", "bAAE", False, 33, False, None, one, [[(0, 5), (0, 4), (0, 3), (0, 2), (0, 1), (0, 0)]]),
+            ("e2e", "bAAA", False, 38, False, None, two[:1], [[(0, 1), (0, 0, 5), (0, 1, 6), (0, 2, 4)]]),          # the source is that of the first gram
         ]
 
     def exhaustive(self, tier):
@@ -180,9 +199,10 @@ class C20(core.Check):
                     idx = idx[:1] + rest
                 if c > 1 and rng.random() < 0.2:
                     idx.remove(rng.randrange(c))                           # withhold one gram
-                for _ in range(rng.choice([0, 0, 1, 2, 5])):
-                    idx.insert(rng.randrange(len(idx) + 1), rng.randrange(c))   # duplicates
                 per.append([(mi, g) for g in idx])
+                for _ in range(rng.choice([0, 0, 1, 2, 5])):                     # duplicates, sometimes relayed from another source
+                    d = (mi, rng.randrange(c)) if rng.random() < 0.7 else (mi, rng.randrange(c), rng.randrange(4, 7))
+                    per[-1].insert(rng.randrange(len(per[-1]) + 1), d)
             seq = []
             if rng.random() < 0.5:      # interleave
                 while any(per):
@@ -256,11 +276,14 @@ class C20(core.Check):
         delivered_total = {}
         for w, o in zip(want, rx):
             got = list(o[0][1:])
-            exp = [(bytes(memos[mi][0]), memos[mi][2], vid) for mi in w]
+            exp = [(bytes(memos[mi][0]), src, vid) for mi, src in w]
             for g in got:
-                if g not in [(bytes(t), s, vid) for t, _m, s in memos]:
+                if (g[0], g[2]) not in [(bytes(t), vid) for t, _m, s in memos]:
                     bad.append("delivered-something-never-sent")
-            if sorted(got, key=repr) != sorted(exp, key=repr):
+            if sorted(got, key=repr) != sorted(exp, key=repr) and \
+                    sorted(((g[0], g[2]) for g in got), key=repr) == sorted(((e[0], e[2]) for e in exp), key=repr):
+                bad.append("memo-delivered-with-wrong-source")
+            elif sorted(got, key=repr) != sorted(exp, key=repr):
                 missing = [e for e in exp if e not in got]
                 extra = list(got)
                 for e in exp:
@@ -291,7 +314,7 @@ class C20(core.Check):
         vid = A.key(ki)["vid"].encode() if (ki is not None and signed) else None
 
         def rep(sim):
-            return [sorted(repr((bytes(memos[mi][0]), memos[mi][2], vid)) for mi in w) for w in sim]
+            return [sorted(repr((bytes(memos[mi][0]), src, vid)) for mi, src in w) for w in sim]
         ideal = rep(simulate(case, counts, False, False))
         s33 = rep(simulate(case, counts, False, True))
         s32 = rep(simulate(case, counts, True, True))
@@ -314,7 +337,9 @@ class C20(core.Check):
         f.append("grams/memo~" + str(min(max(counts + [0]), 40) // 5 * 5))
         f.append("memo-bytes~" + str(min(max(len(t) for t, _, _ in memos), 2048) // 256 * 256))
         flat = [tuple(x) for b in sched for x in b]
-        f.append("dups" if len(flat) != len(set((mi, g % counts[mi]) for mi, g in flat if counts[mi])) else "no-dups")
+        f.append("dups" if len(flat) != len(set((x[0], x[1] % counts[x[0]]) for x in flat if counts[x[0]])) else "no-dups")
+        if any(len(x) > 2 for x in flat):
+            f.append("foreign-source-duplicate")
         if any(r[0] == "raise" for r in obs[0][1:]):
             f += ["rend-raise:" + r[1] for r in obs[0][1:] if r[0] == "raise"]
         nd = sum(len(o[0]) - 1 for o in obs[1][1:] if o[0] != "escape")
@@ -333,7 +358,7 @@ class C20(core.Check):
         for i in range(len(memos)):
             if len(memos) > 1:
                 ms = memos[:i] + memos[i + 1:]
-                sc = [[(mi - (mi > i), g) for mi, g in b if mi != i] for b in sched]
+                sc = [[(x[0] - (x[0] > i),) + tuple(x[1:]) for x in b if x[0] != i] for b in sched]
                 yield case[:6] + (ms, sc)
             t = memos[i][0]
             if len(t) > 1:
